@@ -111,8 +111,11 @@ def _plugin_child(world, spec, out_path, trace_path):
     import pytest
 
     os.chdir(world)
-    sys.dont_write_bytecode = True
+    sys.dont_write_bytecode = not spec.get("bytecode")
     _base_env(spec.get("env"))
+    if spec.get("bytecode"):
+        # histories over a persistent directory: __pycache__ (CPython's and pytest's rewritten .pyc) survives between sessions
+        os.environ.pop("PYTHONDONTWRITEBYTECODE", None)
     _redirect(out_path)
     _purge_modules()
     assert_sut_is_repo()
@@ -157,6 +160,8 @@ def _plugin_child(world, spec, out_path, trace_path):
     if spec.get("xdist") is not None:
         # xdist loaded; "-n 0" means: plugin present but not distributing
         argv = ["-p", "inline_snapshot.pytest_plugin", "-p", "no:cacheprovider", "-p", "xdist", "-n", str(spec["xdist"])]
+    if spec.get("pytester"):
+        argv += ["-p", "pytester"]
     flags = spec.get("flags")
     if flags is not None:
         argv.append("--inline-snapshot=" + flags)
